@@ -11,6 +11,7 @@ mod graphrun;
 mod lfo;
 mod midi;
 mod quant;
+mod ribbon;
 mod util;
 
 use util::*;
@@ -54,6 +55,7 @@ fn main() {
                 "lfo" => lfo::record(driver, seed, thorough, &mut out),
                 "adsr" => adsr::record(driver, seed, thorough, &mut out),
                 "quant" => quant::record(driver, seed, thorough, &mut out),
+                "ribbon" => ribbon::record(driver, seed, thorough, &mut out),
                 _ => usage(),
             };
             let n = out.finish();
@@ -72,6 +74,7 @@ fn main() {
                 "lfo" => lfo::rerun(&lines, &mut out),
                 "adsr" => adsr::rerun(&lines, &mut out),
                 "quant" => quant::rerun(&lines, &mut out),
+                "ribbon" => ribbon::rerun(&lines, &mut out),
                 _ => usage(),
             }
             out.finish();
@@ -85,6 +88,8 @@ fn main() {
             let thorough = args[5] == "thorough";
             let rc = match args[2].as_str() {
                 "midi" => graphrun::run(&g, &mut midi::GraphTarget::new(3), seed, thorough),
+                "ribbon100" => graphrun::run(&g, &mut ribbon::GraphTarget::new(100), seed, thorough),
+                "ribbon500" => graphrun::run(&g, &mut ribbon::GraphTarget::new(500), seed, thorough),
                 _ => usage(),
             };
             std::process::exit(rc);
